@@ -3,6 +3,13 @@ HOOK_COMMITS = []
 PENDING = "check not built yet in this round (the design in DESIGN.md applies; runtime monitoring does apply to it)"
 NOT_APPLICABLE = {("C%02d" % i): PENDING for i in range(1, 21)}
 CHECKS = {
+    "C18": {
+        "category": "fault_enumeration",
+        "text": "Exhaustive per scenario: every system call the real `jaq -i` process issues after opening its first input is one kill point (strace inject SIGKILL before the call executes, effect verified from the run's own trace), plus errno injections at every write/rename/chmod/open/stat/mmap/close/getcwd/unlink call and filter-level failures (error after k outputs, halt, parse error at value k, missing file, writer error), each itself kill-enumerated; after every run the directory must satisfy: every target exactly old or exactly complete-new, pattern new* old*, failing and later files old, success => all new with mode bits preserved and no stray file, bystanders untouched. 12 scenarios in quick, 200 more generated ones in thorough.",
+        "design_ref": "DESIGN.md §4 C18",
+        "note": "trusts strace 6.1 ptrace injection (each run checked from its own log for which call was hit and left unfinished), the kernel on ext4+tmpfs, a Python directory snapshot; expected new content = jaq's own stdout without -i; no durability / power-loss claim",
+        "technique": "runtime fault injection on the production binary (every kill point and errno per scenario) with a state-comparison oracle",
+    },
     "C01": {
         "text": "Held on the executions observed: tens of thousands (quick) to ~10^6 (thorough) generated core-language programs (scope-/arity-aware grammar: nested defs with $x and filter parameters, closures, shadowing, bounded recursion, label/break through closures, patterns, reduce/foreach, try/catch, //, paths, updates, interpolation, multi-valued object keys/values) rendered by an independent printer, run by the real lexer+parser+compiler+interpreter in two build flavours and compared output by output, up to and including the first error/halt, with jqref, a lazy definitional interpreter written from the manual; plus every `code --> output` example of the manual of the current tree (vs documented output, vs jqref, and re-run under 8 semantics-preserving binder wrappers). No proof; bounded by program size.",
         "design_ref": "DESIGN.md §4 C01, §2.2, Appendix A",
@@ -20,6 +27,18 @@ CHECKS = {
         "design_ref": "DESIGN.md §4 C03",
         "note": "only 'not more than the left-to-right semantics allows before output k' is demanded; divergence is observed through markers/ticks/bytes consumed, never through wall-clock; trusts jqref's evaluation order",
         "technique": "runtime monitoring: effect-trace monitor with inert and armed marker natives, checked against a reference trace",
+    },
+    "C09": {
+        "text": "Held on the executions observed: whole arithmetic matrices (+ - * / %, unary -) over pools of typed operands straddling every machine/big-integer boundary compared with Python integers / IEEE doubles (value, integer-vs-float kind, bit-exact floats); the manual's non-numeric operator equations incl. key order; 56 integer consumers evaluated under three representations of the same integer (machine, injected big, computed n + 2^70 - 2^70) plus halt(n) at the CLI; both build profiles. Bounded by the pools; no proof.",
+        "design_ref": "DESIGN.md §4 C09",
+        "note": "trusts vlib.values arithmetic as a reading of corelang §Numbers/§Binary, Python's int->float rounding, and the typed codec (wire tags echoed and checked)",
+        "technique": "runtime monitoring: reference-model monitor on operator matrices + metamorphic representation substitution",
+    },
+    "C10": {
+        "text": "Held on the executions observed: complete enumeration (thorough; seeded slice in quick) of the stated small scope - all arrays/strings of length <= 4 over 1-4-byte characters incl. one invalid byte, the same as byte strings, all objects with <= 3 entries over arbitrary-value keys x 27 positions / 729 bound pairs incl. +-2^63, +-10^20, big representation and wrongly typed - for 60+ read and update operations, each compared with a Python position model and with the manual's iter_upd/index_upd/slice_upd (verbatim from the current tree) evaluated by the same binary; random larger containers; both profiles.",
+        "design_ref": "DESIGN.md §4 C10",
+        "note": "trusts vlib.values (reads) and vlib.c10_model (updates); invalid UTF-8 text judged only for identities, whole-string slices and no panic; key order after deleting updates compared as a set",
+        "technique": "runtime monitoring: exhaustive small-scope reference-model monitor + differential against the manual's jq definitions",
     },
     "C11": {
         "text": "Held on the executions observed: the 17 obligations E01-E17 (every defining equation of the manual for limit/skip/first/last/nth/isempty/any/all/add/range/repeat/recurse/../while/until/select/empty/error/reduce/foreach) instantiated with generated finite streams containing errors and multiplicities, counts around 0 and the stream length and beyond 2^63, numeric/string/array range bounds, 0/1/2-output updates and variable/array/object patterns; both sides evaluated by the real interpreter on the same input and compared as streams with the position and payload of the first error.",
@@ -44,6 +63,12 @@ CHECKS = {
         "design_ref": "DESIGN.md §4 C16",
         "note": "trusts the resolver in checks/c16.py as a reading of the documented rules (includes are not treated as transitive); follows the property (not docs/advanced.dj) for the order local-before-global",
         "technique": "runtime monitoring: reference resolver (inlining) vs real module loader + filesystem placement scenarios",
+    },
+    "C04": {
+        "text": "Held on the executions observed: generated nests of tail-recursive definitions (self / parent / grand-parent / earlier-sibling / nested-sibling calls through every documented tail position, counter in `.` or in a variable argument, variable and filter arguments passed on unchanged, run for values, for paths, under first/limit/label) and 17 built-in loops, each run for N = 20 000 iterations with a probe native sampling native stack depth and live heap at every iteration: stack growth between the iteration windows [N/10,N/2) and [N/2,N] <= 4 KiB and live-heap growth between N/2 and N <= 16 KiB; then N in {1e5, 2e5, 1e6} inside a thread with a fixed 2 MiB stack must complete. Negative controls (non-tail recursion) must show growth, else the run is a broken check.",
+        "design_ref": "DESIGN.md §4 C04",
+        "note": "stack depth = address of a local inside a harness native, heap = live bytes of a counting global allocator in the helper process; verdicts on logical quantities only (watchdog/ OOM = inconclusive); update mode is not claimed by the property",
+        "technique": "runtime monitoring: resource-slope monitor (stack address and live-heap probes per iteration) + fixed-stack end-to-end runs",
     },
     "C08": {
         "text": "Held on the executions observed: whole comparison matrices over pools of typed values (every number representation of equal values, representation boundaries, text/byte strings, objects in different insertion orders) computed by the real interpreter, compared with the manual's order and checked model-free for trichotomy, antisymmetry and transitivity; sort/unique/group_by/min/max/bsearch/array-minus checked against the same order; model-equal values substituted for each other in 20 lookup/dedup contexts. Bounded by the pools; no proof.",
